@@ -6,8 +6,14 @@ A history is a list of engine-S steps (lock / unlock / tick) interleaved with en
   rewrite  admin-triggered compaction, optionally with requests issued while it runs (C16)
   restart  stop the instance (Close, or not at all = kill -9 after a drained queue), start a new one
            on the SAME directory (start-up compaction), continue with a tick-free second generation
+  burst    several requests run while the records of the earlier ones are still queued in the AofChannel
+           (handed to the log by reference, not yet copied by the channel goroutine): value operations of every
+           kind on few keys that are used by bursts only (C08, C07)
 The virtual clock of the first instance starts `back` seconds in the past; `back` exceeds the total
-number of ticks so that virtual time never passes the wall clock."""
+number of ticks so that virtual time never passes the wall clock.
+
+gen_update: directed-random histories around value-less deadline UPDATEs (update flag) of persisted holds,
+lengthening and shortening, seconds and minutes, at different ages, followed by compactions (C16)."""
 import random, struct
 
 def frame(payload, typ=0, flag=0):
@@ -18,6 +24,34 @@ def incr_frame(v):
     return (struct.pack("<I", 10) + bytes([2, 1]) + struct.pack("<q", v)).hex()
 
 CLS_FLAGS = {"dflt": 0, "imm": 0x0100, "never": 0x0200, "pct": 0x1000}
+
+# value operations (protocol LOCK_DATA_COMMAND_TYPE_*)
+T_SET, T_UNSET, T_INCR, T_APPEND, T_SHIFT, T_PUSH, T_POP = 0, 1, 2, 3, 4, 7, 8
+BURST_KEYS = [60, 61, 62, 63]       # used by burst steps only (the monitor computes their values from the bursts alone)
+
+def _payload(rng):
+    r = rng.random()
+    if r < 0.08:
+        n = rng.choice([64, 100, 250])
+    else:
+        n = rng.choice([1, 1, 2, 3, 4, 5, 7, 8, 9, 13, 16, 17, 31, 32, 33])
+    return bytes(rng.randrange(97, 123) for _ in range(n))
+
+def value_op(rng, first):
+    """One value-operation frame.  first: the key has no value yet (SET / APPEND / PUSH / INCR create one)."""
+    r = rng.random()
+    if first:
+        t = T_SET if r < 0.55 else T_APPEND if r < 0.75 else T_PUSH if r < 0.9 else T_INCR
+    else:
+        t = (T_APPEND if r < 0.42 else T_SET if r < 0.54 else T_PUSH if r < 0.68 else T_INCR if r < 0.78 else T_SHIFT if r < 0.86
+             else T_POP if r < 0.93 else T_UNSET)
+    if t == T_INCR:
+        return incr_frame(rng.randint(-3, 1000))
+    if t in (T_SHIFT, T_POP):
+        return frame(struct.pack("<I", rng.choice([1, 1, 2, 3, 40])), t)
+    if t == T_UNSET:
+        return frame(b"", t)
+    return frame(_payload(rng), t)
 
 def _value(rng, big=0.02):
     r = rng.random()
@@ -119,6 +153,89 @@ class Gen:
                 out.append(self.lock(p, horizon))
         return out, ticks
 
+    def burst(self, p, n=None, rel=None):
+        """A burst step: n requests on one or two burst-only keys; every hold persists at once (persist-immediately class,
+        no waiting, long expiry), so every executed request hands a record with the key's value to the log."""
+        rng = self.rng
+        n = n or rng.choice([3, 4, 5, 6, 8, 10])
+        keys = rng.sample(BURST_KEYS, rng.choice([1, 1, 2]))
+        db = rng.choice(p["dbs"])
+        shared = {k: rng.random() < 0.3 for k in keys}
+        hasval = {k: False for k in keys}
+        used = set()
+        reqs = []
+        for _ in range(n):
+            k = rng.choice(keys)
+            lid = rng.choice([1, 1, 2]) if shared[k] else 1
+            cnt = 2 if shared[k] else 0
+            r = rng.random()
+            base = {"conn": rng.randint(1, 3), "db": db, "key": k, "lid": lid, "tf": 0, "to": 0, "cnt": cnt, "nodup": True}
+            if (k, lid) not in used or r < 0.2:
+                # take the key / one more level of a re-entrant hold
+                d = dict(base, op="lock", flag=0, ef=0x0100, ex=rng.choice([1800, 3600]), rc=3,
+                         data=value_op(rng, not hasval[k]) if rng.random() < 0.85 else "")
+                used.add((k, lid))
+            elif r < 0.85:
+                # the holder runs a value operation (update flag: terms re-stated, no new level)
+                d = dict(base, op="lock", flag=0x02, ef=0x0100, ex=rng.choice([1800, 3600]), rc=3,
+                         data=value_op(rng, not hasval[k]) if rng.random() < 0.92 else "")
+            else:
+                d = dict(base, op="unlock", flag=0, ef=0, ex=0, rc=rng.choice([0, 1]),
+                         data=value_op(rng, not hasval[k]) if rng.random() < 0.4 else "")
+            if d["data"]:
+                hasval[k] = True
+            reqs.append(d)
+        return {"op": "burst", "reqs": reqs, "rel": rel if rel is not None else rng.choice(["", "", "rev", "seq"])}
+
+    def update_block(self, p, j, back_hint):
+        """A persisted hold on a key of its own, a value-less deadline UPDATE (update flag) that lengthens or shortens it,
+        ticks before and after (the age of the hold and of the update record at the compaction).  Returns (steps, ticks)."""
+        rng = self.rng
+        db = rng.choice(p["dbs"])
+        key, lid = 70 + j, rng.choice([1, 2, 3])
+        minute = rng.random() < 0.35
+        floor = back_hint + 1200                # every deadline stays clear of the wall clock of the recoveries, also on a busy machine
+        if minute:
+            # LockManager.CheckLockedEqual treats a minute-unit request as "the same" when its deadline is within 60 s of the
+            # hold's (live: the update is answered without effect; at REPLAY the same test runs against replayed deadlines
+            # that are rounded to the minute of the start, so an update that moved the deadline by less than ~2 minutes may
+            # or may not be re-applied depending on the second of the start).  The deadlines of one hold are kept at least
+            # 4 minutes apart: what is recovered then does not depend on the second of the start.
+            lo = floor // 60 + 2
+            e1 = rng.randrange(lo, lo + 30)
+            e2 = e1 + rng.choice([-14, -9, -4, 4, 5, 9, 20])
+            ef = 0x40
+        else:
+            e1 = rng.choice([floor, floor + 1, floor + 37, floor + 300, 3000, 9000])
+            e2 = e1 + rng.choice([-150, -61, -60, -3, -2, -1, 1, 2, 3, 59, 60, 61, 100, 500, 4000])
+            ef = 0
+        cls = rng.choice([0x0100, 0x0100, 0])  # persist-immediately, or the default delay (persisted by the first ticks)
+        cnt, rc = rng.choice([(0, 0), (0, 0), (2, 0), (0, 2)])
+        base = {"op": "lock", "conn": rng.randint(1, 3), "db": db, "key": key, "lid": lid, "tf": 0, "to": 0, "cnt": cnt, "rc": rc, "nodup": True}
+        steps, ticks = [], 0
+        def tick(n):
+            nonlocal ticks
+            if n > 0:
+                steps.append({"op": "tick", "n": n, "order": rng.choice(["te", "et"])})
+                ticks += n
+        steps.append(dict(base, flag=0, ef=ef | cls, ex=e1, data=_value(rng) if rng.random() < 0.25 else ""))
+        tick(rng.choice([0, 1, 2, 2, 3, 30, 59, 60, 61]) if cls else rng.choice([2, 3, 30, 60, 61]))
+        nupd = rng.choice([1, 1, 1, 2])
+        for u in range(nupd):
+            ex = e2 if u == 0 else e2 + (rng.choice([-5, 6, 11]) if ef else rng.choice([-1, 1, 7]))
+            # the same unit as the hold, sometimes the other one (then it is the last update of the block, and minutes
+            # are again kept clear of the one-minute "same deadline" zone)
+            uef = ef
+            switch = rng.random() < 0.12
+            if switch:
+                uef = 0x40 - ef
+                ex = ex // 60 + 6 if uef else ex * 60 + rng.choice([300, 301, 330])
+            steps.append(dict(base, flag=0x02, ef=uef | cls, ex=min(ex, 65000), data=""))
+            tick(rng.choice([0, 0, 1, 2, 29, 59, 60, 61, 119, 120, 121]))
+            if switch:
+                break
+        return steps, ticks
+
     def epoch2(self, p, n, horizon):
         """Tick-free workload for a recovered instance: persist-immediately holds on fresh keys, releases and
         re-locks of recovered holds."""
@@ -182,8 +299,14 @@ def gen_history(seed, idx, kind, aoftime=None):
             steps.append(d)
             if rng.random() < 0.3:
                 steps.append(g.unlock(p, key=50 + j, lid=d["lid"], db=d["db"]))
+        withburst = rng.random() < 0.3
+        if withburst:
+            # the newest file ends with records that were queued together (no compaction while they drain)
+            if "rewritesize" in cfg:
+                cfg["rewritesize"] = max(cfg["rewritesize"], 12 + 64 * 40)
+            steps.append(g.burst(p))
         steps.append({"op": "stop", "cuts": rng.choice(["tail", "tail", "tail1"]), "e2mod": rng.choice([3, 5, 9]), "e2off": rng.randint(0, 8),
-                      "epoch2": g.epoch2(p, rng.choice([2, 4]), horizon)})
+                      "epoch2": g.epoch2(p, rng.choice([2, 4]), horizon), "child": withburst})
     elif kind == "compact":
         # C16: every file-system step of every compaction is imaged and recovered
         sc["imgcpt"] = True
@@ -202,3 +325,76 @@ def gen_history(seed, idx, kind, aoftime=None):
             steps.append({"op": "stop"})
     sc["steps"] = steps
     return sc
+
+
+def gen_burst(seed, idx, kind):
+    """Short histories around bursts (C08: crash images of the burst's records; C07: clean stop / start after it)."""
+    g = Gen(seed, 500000 + idx, kind)
+    rng = g.rng
+    p = g.profile()
+    p["ptick"], p["tickmax"] = 0.1, 1
+    horizon = 60
+    body, ticks = g.body(p, rng.choice([0, 2, 5, 9]), horizon)
+    cfg = dict(rng.choice([{"bufsize": 64}, {"bufsize": 64}, {"bufsize": 128}, {"bufsize": 256}, {"bufsize": 4096}, {}]))
+    def longlived(sts):
+        # the recoveries of one stop point (child processes) can be seconds apart on a busy machine: no hold of these
+        # histories ends while they run (a record that expires between two starts is finding A27, not the subject here)
+        for st in sts:
+            if st["op"] == "lock" and not (st["ef"] & 0x4000) and 0 < st["ex"] < 1200:
+                st["ex"] = st["ex"] + 1200 if not (st["ef"] & 0x40) else st["ex"] + 20
+        return sts
+    steps = longlived(list(body))
+    nb = rng.choice([1, 1, 2])
+    for b in range(nb):
+        steps.append(g.burst(p))
+        if b + 1 < nb:
+            more, t2 = g.body(p, rng.choice([0, 1, 3]), horizon)
+            steps += longlived(more)
+            ticks += t2
+    sc = {"name": f"burst-{kind}-{seed}-{idx}", "kind": kind, "cfg": cfg, "imgcpt": False}
+    if kind == "restart":
+        # values are judged at a stop point once they are older than the persistence delay
+        steps.append({"op": "tick", "n": 2, "order": "te"})
+        ticks += 2
+        steps.append({"op": "stop", "child": True})
+    else:
+        steps.append({"op": "stop", "cuts": rng.choice(["tail", "tail", "tail1"]), "e2mod": rng.choice([0, 5, 9]), "e2off": rng.randint(0, 8),
+                      "epoch2": g.epoch2(p, 2, horizon), "child": True})
+    sc["back"] = ticks + rng.choice([2, 5, 12])
+    sc["steps"] = steps
+    return sc
+
+
+def gen_update(seed, idx, kind="compact"):
+    """C16: holds whose deadline was moved by a value-less update, then compactions by every trigger (admin command with requests
+    meanwhile, size threshold, start-up), each file-system step imaged and compared with the files it replaced."""
+    g = Gen(seed, 700000 + idx, kind)
+    rng = g.rng
+    p = g.profile()
+    p["ptick"], p["tickmax"] = 0.15, 2
+    horizon = 60
+    cfg = dict(rng.choice([{"bufsize": 64}, {"bufsize": 128}, {"bufsize": 4096}, {}]))
+    cfg["rewritesize"] = 12 + 64 * rng.choice([3, 4, 6, 10, 40, 40])
+    steps, ticks = [], 0
+    nblk = rng.choice([1, 1, 2, 3])
+    for j in range(nblk):
+        pre, t0 = g.body(p, rng.choice([0, 0, 2, 4]), horizon)
+        steps += pre
+        ticks += t0
+        blk, t1 = g.update_block(p, j, 330)    # 330 = the most a block and its neighbours tick
+        steps += blk
+        ticks += t1
+        if rng.random() < 0.7:
+            steps.append({"op": "rewrite", "during": g.epoch2(p, rng.choice([0, 0, 2]), horizon)})
+            if rng.random() < 0.3:
+                k = rng.choice([1, 2, 60, 61])
+                steps.append({"op": "tick", "n": k, "order": "te"})
+                ticks += k
+                steps.append({"op": "rewrite", "during": []})
+    if rng.random() < 0.5:
+        steps.append({"op": "restart", "hard": rng.random() < 0.5, "cpt": rng.choice(["faithful", "held", "held"]),
+                      "epoch2": [{"op": "rewrite", "during": []}, {"op": "stop"}]})
+    else:
+        steps.append({"op": "rewrite", "during": []})
+        steps.append({"op": "stop"})
+    return {"name": f"upd-{kind}-{seed}-{idx}", "kind": kind, "cfg": cfg, "back": ticks + rng.choice([2, 5, 12, 25]), "imgcpt": True, "steps": steps}
